@@ -14,6 +14,14 @@ CONSTANTS
   AllowAdd = TRUE
   AllowDw = FALSE
   AllowReuse = FALSE
+  PMs = {"zeros"}
+  Ds = {1}
+  Ss = {1}
+  Biases = {TRUE}
+  Batches = {1, 4}
+  Alphabet = "classic"
+  FwdImpl = "plain"
+  ExpImpl = "fresh"
   TupMode = "one"
   WType = "pl"
   SelMode = "rot"
@@ -34,3 +42,6 @@ INVARIANT InvPerInvocation
 INVARIANT InvCostTheta
 INVARIANT InvFreshIsSummary
 INVARIANT InvFreshDef
+INVARIANT InvExportGeom
+INVARIANT InvBatchIndependent
+INVARIANT InvExportCurrent
